@@ -54,7 +54,9 @@ Put(fn, k, v) == [x \in DOMAIN fn \cup {k} |-> IF x = k THEN v ELSE fn[x]]
 
 Err(cls, path) == [cls |-> cls, path |-> path]
 NoErr == [cls |-> "none", path |-> <<>>]
-Res(ok, cfg, err, repl) == [ok |-> ok, cfg |-> cfg, err |-> err, repl |-> repl]
+\* .log: schema validators invoked during the call, as <<path, name>> pairs
+ResL(ok, cfg, err, repl, log) == [ok |-> ok, cfg |-> cfg, err |-> err, repl |-> repl, log |-> log]
+Res(ok, cfg, err, repl) == ResL(ok, cfg, err, repl, {})
 
 ---------------------------------------------------------------------------
 (* environment binding (core.py Field.__setkey__ / Schema.__setkey__):
@@ -157,51 +159,53 @@ ValidatorOk(name, c) ==
                                  \/ c.vals["x"].t # "int" \/ c.vals["y"].t # "int"
                                  \/ c.vals["x"].i < c.vals["y"].i
       [] name = "needs_x"     -> "x" \in DOMAIN c.vals /\ ~IsNone(c.vals["x"])
+      [] name = "needs_key"   -> "key" \in DOMAIN c.vals /\ ~IsNone(c.vals["key"])
+      [] name = "host_not_x"  -> ~("host" \in DOMAIN c.vals /\ c.vals["host"] = StrV(<<"x">>))
       [] name = "x_not_3"     -> ~("x" \in DOMAIN c.vals /\ c.vals["x"] = IntV(3))
 
 ---------------------------------------------------------------------------
-RECURSIVE ValidateCfg(_, _, _)
+RECURSIVE ValidateCfgL(_, _, _, _)
 RECURSIVE LoadTree(_, _, _, _, _)
 RECURSIVE LoadPairs(_, _, _, _)
 RECURSIVE SetValue(_, _, _, _, _)
-RECURSIVE ValidateItemsCfg(_, _, _, _)
 
 \* Schema._validate in raising mode: first error wins.  vlog: validators run (path, name)
 FeatureOn(S, c) ==
     S.flagkey = "" \/ (S.flagkey \in DOMAIN c.vals /\ Truthy(c.vals[S.flagkey]))
 
-ValidateCfg(S, c, path) ==
-    IF ~FeatureOn(S, c) THEN [ok |-> TRUE, err |-> NoErr]
+\* Fields in declaration order (a nested configuration validates itself completely, its own
+\* validators last), then the schema's validators in registration order; the first failure
+\* ends the run.  .log = the validators invoked so far, as <<path, name>> pairs.
+RECURSIVE VFields(_, _, _, _, _)
+RECURSIVE VVals(_, _, _, _, _)
+VRes(ok, err, log) == [ok |-> ok, err |-> err, log |-> log]
+ValidateCfgL(S, c, path, log) ==
+    IF ~FeatureOn(S, c) THEN VRes(TRUE, NoErr, log)
+    ELSE LET f == VFields(S, c, path, 1, log) IN
+         IF ~f.ok THEN f ELSE VVals(S, c, path, 1, f.log)
+VFields(S, c, path, i, log) ==
+    IF i > Len(S.fields) THEN VRes(TRUE, NoErr, log)
     ELSE
-    LET ks == Keys(S)
-        chk(i) ==
-            LET f == S.fields[i][2]  k == ks[i] IN
-            IF f.kind = "virtual" THEN [ok |-> TRUE, err |-> NoErr]
-            ELSE IF IsSchema(f) THEN
-                (IF IsCfg(c.vals[k]) THEN ValidateCfg(f, c.vals[k], Append(path, k))
-                 ELSE [ok |-> TRUE, err |-> NoErr])
-            ELSE IF f.kind = "list" /\ IsSchema(f.item) THEN
-                \* ListField(schema).validate -> ListProxy(...) -> every item config is validated
-                (IF c.vals[k].t = "list"
-                 THEN ValidateItemsCfg(f, c.vals[k].l, Append(path, k), 1)
-                 ELSE IF IsNone(c.vals[k]) /\ ~f.required THEN [ok |-> TRUE, err |-> NoErr]
-                 ELSE [ok |-> FALSE, err |-> Err("ValidationError", Append(path, k))])
-            ELSE LET r == Validate(f, c.vals[k]) IN
-                 IF r.ok THEN [ok |-> TRUE, err |-> NoErr]
-                 ELSE [ok |-> FALSE, err |-> Err("ValidationError", Append(path, k))]
-        badf == {i \in DOMAIN S.fields : ~chk(i).ok}
-        badv == {j \in DOMAIN S.validators : ~ValidatorOk(S.validators[j], c)}
-    IN  IF badf # {} THEN chk(CHOOSE i \in badf : \A j \in badf : i <= j)
-        ELSE IF badv # {} THEN [ok |-> FALSE, err |-> Err("ValidationError", path)]
-        ELSE [ok |-> TRUE, err |-> NoErr]
-
-ValidateItemsCfg(f, items, path, n) ==
-    IF n > Len(items) THEN
-        (IF f.required /\ items = <<>> THEN [ok |-> FALSE, err |-> Err("ValidationError", path)]
-         ELSE [ok |-> TRUE, err |-> NoErr])
-    ELSE IF ~IsCfg(items[n]) THEN [ok |-> FALSE, err |-> Err("ValidationError", path)]
-    ELSE LET r == ValidateCfg(f.item, items[n], Append(path, <<"#", n>>)) IN
-         IF r.ok THEN ValidateItemsCfg(f, items, path, n + 1) ELSE r
+    LET k == S.fields[i][1]  f == S.fields[i][2]
+        r == IF f.kind = "virtual" THEN VRes(TRUE, NoErr, log)
+             ELSE IF IsSchema(f) THEN
+                 (IF IsCfg(c.vals[k]) THEN ValidateCfgL(f, c.vals[k], Append(path, k), log) ELSE VRes(TRUE, NoErr, log))
+             ELSE IF f.kind = "list" /\ IsSchema(f.item) THEN
+                 \* ListField.validate re-wraps the existing typed list without looking at its
+                 \* items: only the list-level rules are checked here
+                 (IF IsNone(c.vals[k]) THEN (IF f.required THEN VRes(FALSE, Err("ValidationError", Append(path, k)), log) ELSE VRes(TRUE, NoErr, log))
+                  ELSE IF c.vals[k].t # "list" THEN VRes(FALSE, Err("ValidationError", Append(path, k)), log)
+                  ELSE IF f.required /\ c.vals[k].l = <<>> THEN VRes(FALSE, Err("ValidationError", Append(path, k)), log)
+                  ELSE VRes(TRUE, NoErr, log))
+             ELSE LET v == Validate(f, c.vals[k]) IN
+                  IF v.ok THEN VRes(TRUE, NoErr, log) ELSE VRes(FALSE, Err("ValidationError", Append(path, k)), log)
+    IN  IF r.ok THEN VFields(S, c, path, i + 1, r.log) ELSE r
+VVals(S, c, path, j, log) ==
+    IF j > Len(S.validators) THEN VRes(TRUE, NoErr, log)
+    ELSE LET log2 == log \cup {<<path, S.validators[j]>>} IN
+         IF ValidatorOk(S.validators[j], c) THEN VVals(S, c, path, j + 1, log2)
+         ELSE VRes(FALSE, Err("ValidationError", path), log2)
+ValidateCfg(S, c, path) == ValidateCfgL(S, c, path, {})
 
 \* ListProxy._validate for a schema / config type item: dict -> new item config + load_tree
 \* (which validates); Config -> adopted, validated
@@ -212,7 +216,7 @@ NewItem(itemS, v, path) ==
         ELSE LoadTree(itemS, d.cfg, v, path, TRUE)
     ELSE IF v.t = "cfgobj" THEN
         LET r == ValidateCfg(itemS, v.c, path) IN
-        Res(r.ok, v.c, r.err, {})
+        ResL(r.ok, v.c, r.err, {}, r.log)
     \* not a map and not a configuration: a plain ValueError, wrapped by the caller with the
     \* path of the list field itself (there is no configuration whose index could be named)
     ELSE Res(FALSE, NoneV, Err("ValueError", SubSeq(path, 1, Len(path) - 1)), {})
@@ -220,8 +224,9 @@ NewItem(itemS, v, path) ==
 NewItems(itemS, l, path, n, acc) ==
     IF l = <<>> THEN Res(TRUE, ListV(acc), NoErr, {})
     ELSE LET r == NewItem(itemS, Head(l), Append(path, <<"#", n>>)) IN
-         IF r.ok THEN NewItems(itemS, Tail(l), path, n + 1, Append(acc, r.cfg))
-         ELSE Res(FALSE, NoneV, r.err, {})
+         IF r.ok THEN LET rest == NewItems(itemS, Tail(l), path, n + 1, Append(acc, r.cfg)) IN
+                      ResL(rest.ok, rest.cfg, rest.err, {}, r.log \cup rest.log)
+         ELSE ResL(FALSE, NoneV, r.err, {}, r.log)
 
 \* any exception of a field is wrapped into the library's ValidationError; "Unmodelled" marks
 \* inputs whose treatment the specification does not describe (conformance skips them)
@@ -244,7 +249,7 @@ LeafValidate(f, v, path) ==
         ELSE IF v.t \notin {"list", "tuple"} THEN Res(FALSE, NoneV, Err("ValidationError", path), {})
         ELSE IF f.required /\ v.l = <<>> THEN Res(FALSE, NoneV, Err("ValidationError", path), {})
         ELSE LET r == NewItems(f.item, v.l, path, 1, <<>>) IN
-             IF r.ok THEN r ELSE Res(FALSE, NoneV, Err("ValidationError", r.err.path), {})
+             IF r.ok THEN r ELSE ResL(FALSE, NoneV, Err("ValidationError", r.err.path), {}, r.log)
     ELSE LET r == Validate(f, v) IN
          IF r.ok THEN Res(TRUE, r.v, NoErr, {}) ELSE Res(FALSE, NoneV, Err(WrapCls(r), DictErrPath(f, v, path, r)), {})
 
@@ -262,8 +267,8 @@ SetValue(S, c, k, v, path) ==
     IF f.kind = "virtual" THEN Res(FALSE, c, Err("TypeError", here), {})
     ELSE IF IsLeaf(f) THEN
         LET r == LeafValidate(f, v, here) IN
-        IF r.ok THEN Res(TRUE, [c EXCEPT !.vals = Put(@, k, r.cfg), !.dflt = @ \ {k}], NoErr, {})
-        ELSE Res(FALSE, c, r.err, {})
+        IF r.ok THEN ResL(TRUE, [c EXCEPT !.vals = Put(@, k, r.cfg), !.dflt = @ \ {k}], NoErr, {}, r.log)
+        ELSE ResL(FALSE, c, r.err, {}, r.log)
     ELSE \* sub-schema or config type
     IF v.t = "cfgobj" THEN
         Res(TRUE, [c EXCEPT !.vals = Put(@, k, v.c), !.dflt = @ \ {k}], NoErr, {here})
@@ -271,8 +276,8 @@ SetValue(S, c, k, v, path) ==
         LET d == DefaultCfg(f, here) IN
         IF ~d.ok THEN Res(FALSE, c, d.err, {})
         ELSE LET r == LoadTree(f, d.cfg, v, here, TRUE) IN
-             IF r.ok THEN Res(TRUE, [c EXCEPT !.vals = Put(@, k, r.cfg), !.dflt = @ \ {k}], NoErr, {here})
-             ELSE Res(FALSE, c, r.err, {})
+             IF r.ok THEN ResL(TRUE, [c EXCEPT !.vals = Put(@, k, r.cfg), !.dflt = @ \ {k}], NoErr, {here}, r.log)
+             ELSE ResL(FALSE, c, r.err, {}, r.log)
     ELSE Res(FALSE, c, Err("ValidationError", here), {})
 
 \* Config.load_tree(tree, validate): keys in document order; NOT atomic
@@ -303,13 +308,13 @@ LoadPairs(S, c, kv, path) ==
                 ELSE LET r == SetValue(S, c, k, py.v, path) IN
                      IF ~r.ok THEN r
                      ELSE LET rest == LoadPairs(S, r.cfg, Tail(kv), path) IN
-                          Res(rest.ok, rest.cfg, rest.err, r.repl \cup rest.repl)
+                          ResL(rest.ok, rest.cfg, rest.err, r.repl \cup rest.repl, r.log \cup rest.log)
 
 LoadTree(S, c, tree, path, validate) ==
     LET r == LoadPairs(S, c, tree.kv, path) IN
     IF ~r.ok \/ ~validate THEN r
     ELSE LET vr == ValidateCfg(S, r.cfg, path) IN
-         IF vr.ok THEN r ELSE Res(FALSE, r.cfg, vr.err, r.repl)
+         ResL(vr.ok, r.cfg, IF vr.ok THEN NoErr ELSE vr.err, r.repl, r.log \cup vr.log)
 
 ---------------------------------------------------------------------------
 (* navigation by path (sequence of keys) through nested configurations *)
@@ -324,7 +329,7 @@ PutAt(c, p, new) == IF p = <<>> THEN new
 \* cfg.a.b.key = v  /  cfg["a.b.key"] = v : walk to the owning configuration, then _set_value
 SetPath(S, c, p, k, v) ==
     LET r == SetValue(SchemaAt(S, p), CfgAt(c, p), k, v, p) IN
-    Res(r.ok, PutAt(c, p, r.cfg), r.err, r.repl)
+    ResL(r.ok, PutAt(c, p, r.cfg), r.err, r.repl, r.log)
 
 \* Config(schema, **kw): keywords through _set_value first, everything else gets its default.
 \* No object results when a keyword is rejected.
